@@ -223,6 +223,21 @@ class CliT:
         self.c.on('message', self._message)
         self.c.on('disconnect', self._disconnect)
         self.clk = 0
+        # boundary spy on disconnect(): when it was entered, in which state,
+        # when it returned (evidence for the race classification of C08)
+        self.disc_calls = []
+        real_disconnect = self.c.disconnect
+
+        def spy_disconnect(*a, **k):
+            self.clk += 1
+            ent = {'enter': self.clk, 'state': self.c.state, 'exit': None}
+            self.disc_calls.append(ent)
+            try:
+                return real_disconnect(*a, **k)
+            finally:
+                self.clk += 1
+                ent['exit'] = self.clk
+        self.c.disconnect = spy_disconnect
 
     def _log(self, ev, **kw):
         self.clk += 1
@@ -521,6 +536,10 @@ class ScriptedServer:
       upgrades: list advertised in OPEN (default ['websocket'])
       pi, pt:   heartbeat settings advertised (seconds)
       post:     'ok' | 'fail-status' | 'refuse' | ('fail-after', n)
+      post_delay: virtual seconds a POST takes before it is answered
+      limit:    packets per POST body the server accepts (default 16, like
+                the package's own server); a longer body is answered 200
+                and not processed, as the real servers do
       ws:       'ok' | 'refuse'
       probe:    'ok' | 'wrong' | 'silent' | 'close'
       ws_open:  'ok' | 'garbage' | 'nonopen' | 'close'  (websocket-only open)
@@ -542,6 +561,8 @@ class ScriptedServer:
         self.nposts = 0
         self.opened = 0
         self.poll_status = None
+        self.session_closed = False     # the client sent a CLOSE packet
+        self.posts_dropped = []         # bodies over the packet limit
 
     def now(self):
         return self.clock()
@@ -589,8 +610,22 @@ class ScriptedServer:
             if p == 'fail-status' or (isinstance(p, (list, tuple)) and
                                       self.nposts > p[1]):
                 return Resp(400, '"bad"')
+            limit = self.script.get('limit', 16)
+            pieces = text.split(gen.SEP)
+            if limit and len(pieces) > limit:
+                # what a conformant server does with too many packets
+                self.posts_dropped.append({'body': text, 't': self.now()})
+                return Resp(200, 'ok')
             self.posts.append({'body': text, 't': self.now()})
+            if '1' in pieces and not self.session_closed:
+                # a CLOSE packet ends the session on a conformant server:
+                # the pending poll is released and later ones are refused
+                # (the real servers answer the pending poll 200-empty)
+                self.session_closed = True
+                self.pollq.put(Resp(200, ''))
             return Resp(200, 'ok')
+        if self.session_closed:
+            return Resp(400, '"session closed"')
         return None      # a poll: the transport waits on pollq
 
     def push(self, *packets):
@@ -660,6 +695,8 @@ class ScriptedT(ScriptedServer):
     def http(self, method, url, headers, body, timeout):
         r = self.decide(method, url, headers, body)
         if r is not None:
+            if method == 'POST' and self.script.get('post_delay'):
+                vsched.vsleep(self.sched, self.script['post_delay'])
             return r
         if self.dropped:
             raise PeerRefused('connection dropped')
@@ -769,6 +806,9 @@ class ScriptedA(ScriptedServer):
     async def ahttp(self, method, url, headers, body, timeout):
         r = self.decide(method, url, headers, body)
         if r is not None:
+            if method == 'POST' and self.script.get('post_delay'):
+                import asyncio
+                await asyncio.sleep(self.script['post_delay'])
             return r
         if self.dropped:
             raise PeerRefused('connection dropped')
